@@ -126,6 +126,13 @@ fn read_file_to_string(s: &str) -> IO<String> {
 fn read_file(file: &GluonFile, count: usize) -> IO<RuntimeResult<Option<Vec<u8>>, String>> {
     let mut file = file.0.lock().unwrap();
     let file = unwrap_file!(file);
+    if count > isize::MAX as usize {
+        // `Vec::with_capacity` panics if the capacity exceeds `isize::MAX` bytes
+        return IO::Value(RuntimeResult::Panic(format!(
+            "cannot read {} bytes at once",
+            count
+        )));
+    }
     let mut buffer = Vec::with_capacity(count);
 
     unsafe {
